@@ -2191,6 +2191,15 @@ class TestGraph(object):
                 if next.is_cleanup_ready(worker):
                     self.report_progress()
 
+                    # nodes this worker could still unroll also add children to its own copy of the current node
+                    unexplored_nodes += [
+                        node
+                        for node in self.nodes
+                        if node.is_flat()
+                        and node not in unexplored_nodes
+                        and not node.is_unrolled(worker)
+                        and node.should_parse(worker)
+                    ]
                     if not next.is_flat() and len(unexplored_nodes) > 0:
                         # postpone cleaning up current node since it might have newly added children
                         logging.info(
